@@ -3,7 +3,7 @@ CONSTANTS
   G = 1
   MaxRings = 1
   Drawings = 1
-  Kinds = {"tri"}
+  Kinds = {"rect", "tri"}
   MutSeq <- MutDraw
   Styles = {"long", "short", "mixed", "mid"}
   Theorems = FALSE
